@@ -81,6 +81,85 @@ package capella
 //@   requires spec != nil
 //@   ensures r != nil && r.MinSlashingPenaltyQuotient == spec.MIN_SLASHING_PENALTY_QUOTIENT_BELLATRIX && r.ProportionalSlashingMultiplier == spec.PROPORTIONAL_SLASHING_MULTIPLIER_BELLATRIX && r.InactivityPenaltyQuotient == spec.INACTIVITY_PENALTY_QUOTIENT_BELLATRIX
 
+// ---------------------------------------------------------------- the withdrawals sweep (C01)
+// get_expected_withdrawals: positions p = 0, 1, ... of the sweep look at validator sw_idx(p) (starting at
+// next_withdrawal_validator_index, stepping by one modulo the registry length); a fully withdrawable validator
+// yields its whole balance, otherwise a partially withdrawable one the excess over MAX_EFFECTIVE_BALANCE; the sweep
+// ends after min(len(validators), MAX_VALIDATORS_PER_WITHDRAWALS_SWEEP) positions or once MAX_WITHDRAWALS_PER_PAYLOAD
+// withdrawals are collected; withdrawal indices count up from next_withdrawal_index.
+// Validator views are assumed readable (the predicates panic on a read error).
+//@ sort RegIc = common.ValidatorRegistry
+//@ sort BalIc = common.BalancesRegistry
+//@ sort ValIc = common.Validator
+//@ sort StateW = BeaconStateWithWithdrawals
+//@ sort WdT = common.Withdrawal
+//@ ufun st_next_wi_err(StateW) bool
+//@ ufun st_next_wi(StateW) int
+//@ ufun st_next_wvi_err(StateW) bool
+//@ ufun st_next_wvi(StateW) int
+//@ func (s BeaconStateWithWithdrawals) NextWithdrawalIndex() (r, err)
+//@   trusted
+//@   opt noalloc
+//@   ensures (err != nil) == st_next_wi_err(s)
+//@   ensures err == nil ==> r == st_next_wi(s)
+//@ func (s BeaconStateWithWithdrawals) NextWithdrawalValidatorIndex() (r, err)
+//@   trusted
+//@   opt noalloc
+//@   ensures (err != nil) == st_next_wvi_err(s)
+//@   ensures err == nil ==> r == st_next_wvi(s)
+//@ define wd_full(v ValIc, b int, ep int) bool = v_wcred(v)[0] == 1 && v_wd(v) <= ep && b > 0
+//@ define wd_partial(v ValIc, b int, maxeb int) bool = v_wcred(v)[0] == 1 && v_eb(v) == maxeb && b > maxeb
+//@ defrec sw_idx(vi0 int, count int, p int) int = ite(p <= 0, vi0, (sw_idx(vi0, count, p - 1) + 1) % count)
+//@ define sw_wd(ver int, reg RegIc, bals BalIc, ep int, maxeb int, vi0 int, count int, p int) bool = wd_full(reg_val(reg, sw_idx(vi0, count, p)), bal_at(ver, bals, sw_idx(vi0, count, p)), ep) || wd_partial(reg_val(reg, sw_idx(vi0, count, p)), bal_at(ver, bals, sw_idx(vi0, count, p)), maxeb)
+//@ define sw_amount(ver int, reg RegIc, bals BalIc, ep int, maxeb int, vi0 int, count int, p int) int = ite(wd_full(reg_val(reg, sw_idx(vi0, count, p)), bal_at(ver, bals, sw_idx(vi0, count, p)), ep), bal_at(ver, bals, sw_idx(vi0, count, p)), bal_at(ver, bals, sw_idx(vi0, count, p)) - maxeb)
+//@ defrec sw_count(ver int, reg RegIc, bals BalIc, ep int, maxeb int, vi0 int, count int, p int) int = ite(p <= 0, 0, sw_count(ver, reg, bals, ep, maxeb, vi0, count, p - 1) + ite(sw_wd(ver, reg, bals, ep, maxeb, vi0, count, p - 1), 1, 0))
+
+//@ func Eth1WithdrawalCredential(validator) r
+//@   property C01
+//@   requires readable: validator != nil && !v_wcred_err(validator)
+//@   ensures forall k :: 0 <= k && k < 20 ==> r[k] == v_wcred(validator)[12 + k]
+
+//@ lemma sw_count_mono [C01, induct=q, manual]: forall q int, ver int, reg RegIc, bals BalIc, ep int, maxeb int, vi0 int, count int, p int :: {sw_count(ver, reg, bals, ep, maxeb, vi0, count, p), sw_count(ver, reg, bals, ep, maxeb, vi0, count, q)} p <= q ==> sw_count(ver, reg, bals, ep, maxeb, vi0, count, p) <= sw_count(ver, reg, bals, ep, maxeb, vi0, count, q)
+//@ lemma sw_count_bound [C01, induct=q, manual]: forall q int, ver int, reg RegIc, bals BalIc, ep int, maxeb int, vi0 int, count int :: {sw_count(ver, reg, bals, ep, maxeb, vi0, count, q)} 0 <= sw_count(ver, reg, bals, ep, maxeb, vi0, count, q) && sw_count(ver, reg, bals, ep, maxeb, vi0, count, q) <= max(q, 0)
+//@ func GetExpectedWithdrawals(state, spec) (out, err)
+//@   property C01
+//@   use reg_len_nonneg, sw_count_mono, sw_count_bound, val_views_readable
+//@   requires spec != nil && state != nil && spec.SLOTS_PER_EPOCH != 0
+//@   ensures count: err == nil && spec != nil && state != nil && spec.SLOTS_PER_EPOCH != 0 && spec.MAX_WITHDRAWALS_PER_PAYLOAD > 0 && spec.MAX_WITHDRAWALS_PER_PAYLOAD < 4611686018427387904 && st_next_wi(state) < 4611686018427387904 && st_next_wvi(state) < 4611686018427387904 ==> len(out) == min(spec.MAX_WITHDRAWALS_PER_PAYLOAD, sw_count(n_set_bal, st_vals(state), st_bals(state), st_slot(state) / spec.SLOTS_PER_EPOCH, spec.MAX_EFFECTIVE_BALANCE, st_next_wvi(state), reg_len(st_vals(state)), min(reg_len(st_vals(state)), spec.MAX_VALIDATORS_PER_WITHDRAWALS_SWEEP)))
+//@   ensures members: err == nil && spec != nil && state != nil && spec.SLOTS_PER_EPOCH != 0 && spec.MAX_WITHDRAWALS_PER_PAYLOAD > 0 && spec.MAX_WITHDRAWALS_PER_PAYLOAD < 4611686018427387904 && st_next_wi(state) < 4611686018427387904 && st_next_wvi(state) < 4611686018427387904 ==> (forall p :: {sw_count(n_set_bal, st_vals(state), st_bals(state), st_slot(state) / spec.SLOTS_PER_EPOCH, spec.MAX_EFFECTIVE_BALANCE, st_next_wvi(state), reg_len(st_vals(state)), p)} 0 <= p && p < min(reg_len(st_vals(state)), spec.MAX_VALIDATORS_PER_WITHDRAWALS_SWEEP) && sw_wd(n_set_bal, st_vals(state), st_bals(state), st_slot(state) / spec.SLOTS_PER_EPOCH, spec.MAX_EFFECTIVE_BALANCE, st_next_wvi(state), reg_len(st_vals(state)), p) && sw_count(n_set_bal, st_vals(state), st_bals(state), st_slot(state) / spec.SLOTS_PER_EPOCH, spec.MAX_EFFECTIVE_BALANCE, st_next_wvi(state), reg_len(st_vals(state)), p) < spec.MAX_WITHDRAWALS_PER_PAYLOAD ==> 0 <= sw_count(n_set_bal, st_vals(state), st_bals(state), st_slot(state) / spec.SLOTS_PER_EPOCH, spec.MAX_EFFECTIVE_BALANCE, st_next_wvi(state), reg_len(st_vals(state)), p) && sw_count(n_set_bal, st_vals(state), st_bals(state), st_slot(state) / spec.SLOTS_PER_EPOCH, spec.MAX_EFFECTIVE_BALANCE, st_next_wvi(state), reg_len(st_vals(state)), p) < len(out) && out[sw_count(n_set_bal, st_vals(state), st_bals(state), st_slot(state) / spec.SLOTS_PER_EPOCH, spec.MAX_EFFECTIVE_BALANCE, st_next_wvi(state), reg_len(st_vals(state)), p)].Index == st_next_wi(state) + sw_count(n_set_bal, st_vals(state), st_bals(state), st_slot(state) / spec.SLOTS_PER_EPOCH, spec.MAX_EFFECTIVE_BALANCE, st_next_wvi(state), reg_len(st_vals(state)), p) && out[sw_count(n_set_bal, st_vals(state), st_bals(state), st_slot(state) / spec.SLOTS_PER_EPOCH, spec.MAX_EFFECTIVE_BALANCE, st_next_wvi(state), reg_len(st_vals(state)), p)].ValidatorIndex == sw_idx(st_next_wvi(state), reg_len(st_vals(state)), p) && out[sw_count(n_set_bal, st_vals(state), st_bals(state), st_slot(state) / spec.SLOTS_PER_EPOCH, spec.MAX_EFFECTIVE_BALANCE, st_next_wvi(state), reg_len(st_vals(state)), p)].Amount == sw_amount(n_set_bal, st_vals(state), st_bals(state), st_slot(state) / spec.SLOTS_PER_EPOCH, spec.MAX_EFFECTIVE_BALANCE, st_next_wvi(state), reg_len(st_vals(state)), p) && (forall k :: 0 <= k && k < 20 ==> out[sw_count(n_set_bal, st_vals(state), st_bals(state), st_slot(state) / spec.SLOTS_PER_EPOCH, spec.MAX_EFFECTIVE_BALANCE, st_next_wvi(state), reg_len(st_vals(state)), p)].Address[k] == v_wcred(reg_val(st_vals(state), sw_idx(st_next_wvi(state), reg_len(st_vals(state)), p)))[12 + k]))
+//@   ensures indices: err == nil && spec != nil && state != nil && spec.SLOTS_PER_EPOCH != 0 && spec.MAX_WITHDRAWALS_PER_PAYLOAD > 0 && spec.MAX_WITHDRAWALS_PER_PAYLOAD < 4611686018427387904 && st_next_wi(state) < 4611686018427387904 && st_next_wvi(state) < 4611686018427387904 ==> (forall k :: {out[k]} 0 <= k && k < len(out) ==> out[k].Index == st_next_wi(state) + k && out[k].ValidatorIndex < 4611686018427387904)
+//@   ensures n_set_bal == old(n_set_bal)
+//@   loop 1
+//@     invariant spec != nil && state != nil && spec.SLOTS_PER_EPOCH != 0 && spec.MAX_WITHDRAWALS_PER_PAYLOAD > 0 && spec.MAX_WITHDRAWALS_PER_PAYLOAD < 4611686018427387904 && st_next_wi(state) < 4611686018427387904 && st_next_wvi(state) < 4611686018427387904 ==> (forall k :: {withdrawals[k]} 0 <= k && k < len(withdrawals) ==> withdrawals[k].Index == st_next_wi(state) + k && withdrawals[k].ValidatorIndex < 4611686018427387904)
+//@     invariant validators == st_vals(state) && balances == st_bals(state) && validatorCount == reg_len(validators) && epoch == st_slot(state) / spec.SLOTS_PER_EPOCH && n_set_bal == old(n_set_bal)
+//@     invariant spec != nil && state != nil && spec.SLOTS_PER_EPOCH != 0 && spec.MAX_WITHDRAWALS_PER_PAYLOAD > 0 && spec.MAX_WITHDRAWALS_PER_PAYLOAD < 4611686018427387904 && st_next_wi(state) < 4611686018427387904 && st_next_wvi(state) < 4611686018427387904 ==> 0 <= i && i <= min(reg_len(st_vals(state)), spec.MAX_VALIDATORS_PER_WITHDRAWALS_SWEEP)
+//@     invariant spec != nil && state != nil && spec.SLOTS_PER_EPOCH != 0 && spec.MAX_WITHDRAWALS_PER_PAYLOAD > 0 && spec.MAX_WITHDRAWALS_PER_PAYLOAD < 4611686018427387904 && st_next_wi(state) < 4611686018427387904 && st_next_wvi(state) < 4611686018427387904 ==> validatorIndex == sw_idx(st_next_wvi(state), validatorCount, i) && validatorIndex < 4611686018427387904
+//@     invariant spec != nil && state != nil && spec.SLOTS_PER_EPOCH != 0 && spec.MAX_WITHDRAWALS_PER_PAYLOAD > 0 && spec.MAX_WITHDRAWALS_PER_PAYLOAD < 4611686018427387904 && st_next_wi(state) < 4611686018427387904 && st_next_wvi(state) < 4611686018427387904 ==> len(withdrawals) == sw_count(n_set_bal, st_vals(state), st_bals(state), st_slot(state) / spec.SLOTS_PER_EPOCH, spec.MAX_EFFECTIVE_BALANCE, st_next_wvi(state), reg_len(st_vals(state)), i) && len(withdrawals) <= i
+//@     invariant spec != nil && state != nil && spec.SLOTS_PER_EPOCH != 0 && spec.MAX_WITHDRAWALS_PER_PAYLOAD > 0 && spec.MAX_WITHDRAWALS_PER_PAYLOAD < 4611686018427387904 && st_next_wi(state) < 4611686018427387904 && st_next_wvi(state) < 4611686018427387904 ==> withdrawalIndex == st_next_wi(state) + len(withdrawals)
+//@     invariant spec != nil && state != nil && spec.SLOTS_PER_EPOCH != 0 && spec.MAX_WITHDRAWALS_PER_PAYLOAD > 0 && spec.MAX_WITHDRAWALS_PER_PAYLOAD < 4611686018427387904 && st_next_wi(state) < 4611686018427387904 && st_next_wvi(state) < 4611686018427387904 ==> len(withdrawals) < spec.MAX_WITHDRAWALS_PER_PAYLOAD
+//@     invariant spec != nil && state != nil && spec.SLOTS_PER_EPOCH != 0 && spec.MAX_WITHDRAWALS_PER_PAYLOAD > 0 && spec.MAX_WITHDRAWALS_PER_PAYLOAD < 4611686018427387904 && st_next_wi(state) < 4611686018427387904 && st_next_wvi(state) < 4611686018427387904 ==> (forall p :: {sw_count(n_set_bal, st_vals(state), st_bals(state), st_slot(state) / spec.SLOTS_PER_EPOCH, spec.MAX_EFFECTIVE_BALANCE, st_next_wvi(state), reg_len(st_vals(state)), p)} 0 <= p && p < i && sw_wd(n_set_bal, st_vals(state), st_bals(state), st_slot(state) / spec.SLOTS_PER_EPOCH, spec.MAX_EFFECTIVE_BALANCE, st_next_wvi(state), reg_len(st_vals(state)), p) ==> sw_count(n_set_bal, st_vals(state), st_bals(state), st_slot(state) / spec.SLOTS_PER_EPOCH, spec.MAX_EFFECTIVE_BALANCE, st_next_wvi(state), reg_len(st_vals(state)), p) < len(withdrawals) && withdrawals[sw_count(n_set_bal, st_vals(state), st_bals(state), st_slot(state) / spec.SLOTS_PER_EPOCH, spec.MAX_EFFECTIVE_BALANCE, st_next_wvi(state), reg_len(st_vals(state)), p)].Index == st_next_wi(state) + sw_count(n_set_bal, st_vals(state), st_bals(state), st_slot(state) / spec.SLOTS_PER_EPOCH, spec.MAX_EFFECTIVE_BALANCE, st_next_wvi(state), reg_len(st_vals(state)), p) && withdrawals[sw_count(n_set_bal, st_vals(state), st_bals(state), st_slot(state) / spec.SLOTS_PER_EPOCH, spec.MAX_EFFECTIVE_BALANCE, st_next_wvi(state), reg_len(st_vals(state)), p)].ValidatorIndex == sw_idx(st_next_wvi(state), reg_len(st_vals(state)), p) && withdrawals[sw_count(n_set_bal, st_vals(state), st_bals(state), st_slot(state) / spec.SLOTS_PER_EPOCH, spec.MAX_EFFECTIVE_BALANCE, st_next_wvi(state), reg_len(st_vals(state)), p)].Amount == sw_amount(n_set_bal, st_vals(state), st_bals(state), st_slot(state) / spec.SLOTS_PER_EPOCH, spec.MAX_EFFECTIVE_BALANCE, st_next_wvi(state), reg_len(st_vals(state)), p) && (forall k :: 0 <= k && k < 20 ==> withdrawals[sw_count(n_set_bal, st_vals(state), st_bals(state), st_slot(state) / spec.SLOTS_PER_EPOCH, spec.MAX_EFFECTIVE_BALANCE, st_next_wvi(state), reg_len(st_vals(state)), p)].Address[k] == v_wcred(reg_val(st_vals(state), sw_idx(st_next_wvi(state), reg_len(st_vals(state)), p)))[12 + k]))
+
+// the payload's withdrawals and the state's sweep cursors (assumed interface models; setters recorded)
+//@ sort PlW = ExecutionPayloadWithWithdrawals
+//@ sort WdsT = []common.Withdrawal
+//@ ufun pl_wds(PlW) WdsT
+//@ func (p ExecutionPayloadWithWithdrawals) GetWitdrawals() r
+//@   trusted
+//@   opt noalloc
+//@   ensures eqseq(r, pl_wds(p))
+//@ ghost n_set_nwi int
+//@ ghost set_nwi int
+//@ ghost n_set_nwvi int
+//@ ghost set_nwvi int
+//@ func (s BeaconStateWithWithdrawals) SetNextWithdrawalIndex(nextIndex) err
+//@   trusted
+//@   assigns ghost(n_set_nwi), ghost(set_nwi)
+//@   ensures n_set_nwi == old(n_set_nwi) + 1 && set_nwi == nextIndex
+//@ func (s BeaconStateWithWithdrawals) SetNextWithdrawalValidatorIndex(nextValidator) err
+//@   trusted
+//@   assigns ghost(n_set_nwvi), ghost(set_nwvi)
+//@   ensures n_set_nwvi == old(n_set_nwvi) + 1 && set_nwvi == nextValidator
+
 // BEGIN C18 generated (tools/gen_c18.py in /verif)
 // cancelled: a context cancelled before the call makes it fail; surfaced: a cancellation observed by a poll
 // during the call makes it fail; polled: success after a poll means the context was not cancelled at entry.
@@ -198,12 +277,13 @@ package capella
 //@   assigns ghost(n_eng_notify), ghost(n_set_exec_header)
 //@   assigns ghost(n_set_wcred), ghost(set_wcred_v), ghost(set_wcred_val)
 //@   assigns ghost(n_set_bal)
+//@   assigns ghost(n_set_nwi), ghost(set_nwi), ghost(n_set_nwvi), ghost(set_nwvi)
 //@   assigns ghost(n_set_mix), ghost(last_set_mix_epoch), ghost(last_set_mix)
 //@   assigns ghost(n_set_lhdr), ghost(set_lhdr)
 //@   assigns ghost(n_viter), ghost(viter_pos), ghost(viter_reg), ghost(n_val_write), ghost(n_set_exit), ghost(set_exit_v), ghost(set_exit_val), ghost(n_set_wd), ghost(set_wd_v), ghost(set_wd_val)
 
 //@ func ProcessWithdrawals(ctx, spec, state, executionPayload) err
-//@   property C18
+//@   property C18 C03 C01
 //@   panics off
 //@   requires ctx != nil
 //@   opt weakcalls
@@ -215,7 +295,21 @@ package capella
 //@   loop *
 //@     invariant ctx_t >= old(ctx_t) && (old(ctx_seen) || !ctx_seen)
 //@     invariant ctx_t > old(ctx_t) ==> !ctx_cancelled(ctx, old(ctx_t))
-//@   assigns ghost(n_set_bal)
+//@   use reg_len_nonneg, val_views_readable
+//@   assigns ghost(n_set_bal), ghost(n_set_nwi), ghost(set_nwi), ghost(n_set_nwvi), ghost(set_nwvi)
+//@   ensures c03_count: err == nil && old(spec != nil && state != nil && executionPayload != nil && spec.SLOTS_PER_EPOCH != 0 && spec.MAX_WITHDRAWALS_PER_PAYLOAD > 0 && spec.MAX_WITHDRAWALS_PER_PAYLOAD < 4611686018427387904 && st_next_wi(state) < 4611686018427387904 && st_next_wvi(state) < 4611686018427387904 && spec.MAX_VALIDATORS_PER_WITHDRAWALS_SWEEP < 4611686018427387904) ==> len(pl_wds(executionPayload)) == min(spec.MAX_WITHDRAWALS_PER_PAYLOAD, sw_count(old(n_set_bal), st_vals(state), st_bals(state), st_slot(state) / spec.SLOTS_PER_EPOCH, spec.MAX_EFFECTIVE_BALANCE, st_next_wvi(state), reg_len(st_vals(state)), min(reg_len(st_vals(state)), spec.MAX_VALIDATORS_PER_WITHDRAWALS_SWEEP)))
+//@   ensures c03_members_len: err == nil && old(spec != nil && state != nil && executionPayload != nil && spec.SLOTS_PER_EPOCH != 0 && spec.MAX_WITHDRAWALS_PER_PAYLOAD > 0 && spec.MAX_WITHDRAWALS_PER_PAYLOAD < 4611686018427387904 && st_next_wi(state) < 4611686018427387904 && st_next_wvi(state) < 4611686018427387904 && spec.MAX_VALIDATORS_PER_WITHDRAWALS_SWEEP < 4611686018427387904) ==> (forall p :: {sw_count(old(n_set_bal), st_vals(state), st_bals(state), st_slot(state) / spec.SLOTS_PER_EPOCH, spec.MAX_EFFECTIVE_BALANCE, st_next_wvi(state), reg_len(st_vals(state)), p)} 0 <= p && p < min(reg_len(st_vals(state)), spec.MAX_VALIDATORS_PER_WITHDRAWALS_SWEEP) && sw_wd(old(n_set_bal), st_vals(state), st_bals(state), st_slot(state) / spec.SLOTS_PER_EPOCH, spec.MAX_EFFECTIVE_BALANCE, st_next_wvi(state), reg_len(st_vals(state)), p) && sw_count(old(n_set_bal), st_vals(state), st_bals(state), st_slot(state) / spec.SLOTS_PER_EPOCH, spec.MAX_EFFECTIVE_BALANCE, st_next_wvi(state), reg_len(st_vals(state)), p) < spec.MAX_WITHDRAWALS_PER_PAYLOAD ==> sw_count(old(n_set_bal), st_vals(state), st_bals(state), st_slot(state) / spec.SLOTS_PER_EPOCH, spec.MAX_EFFECTIVE_BALANCE, st_next_wvi(state), reg_len(st_vals(state)), p) < len(pl_wds(executionPayload)))
+//@   ensures c03_members_index: err == nil && old(spec != nil && state != nil && executionPayload != nil && spec.SLOTS_PER_EPOCH != 0 && spec.MAX_WITHDRAWALS_PER_PAYLOAD > 0 && spec.MAX_WITHDRAWALS_PER_PAYLOAD < 4611686018427387904 && st_next_wi(state) < 4611686018427387904 && st_next_wvi(state) < 4611686018427387904 && spec.MAX_VALIDATORS_PER_WITHDRAWALS_SWEEP < 4611686018427387904) ==> (forall p :: {sw_count(old(n_set_bal), st_vals(state), st_bals(state), st_slot(state) / spec.SLOTS_PER_EPOCH, spec.MAX_EFFECTIVE_BALANCE, st_next_wvi(state), reg_len(st_vals(state)), p)} 0 <= p && p < min(reg_len(st_vals(state)), spec.MAX_VALIDATORS_PER_WITHDRAWALS_SWEEP) && sw_wd(old(n_set_bal), st_vals(state), st_bals(state), st_slot(state) / spec.SLOTS_PER_EPOCH, spec.MAX_EFFECTIVE_BALANCE, st_next_wvi(state), reg_len(st_vals(state)), p) && sw_count(old(n_set_bal), st_vals(state), st_bals(state), st_slot(state) / spec.SLOTS_PER_EPOCH, spec.MAX_EFFECTIVE_BALANCE, st_next_wvi(state), reg_len(st_vals(state)), p) < spec.MAX_WITHDRAWALS_PER_PAYLOAD ==> pl_wds(executionPayload)[sw_count(old(n_set_bal), st_vals(state), st_bals(state), st_slot(state) / spec.SLOTS_PER_EPOCH, spec.MAX_EFFECTIVE_BALANCE, st_next_wvi(state), reg_len(st_vals(state)), p)].Index == st_next_wi(state) + sw_count(old(n_set_bal), st_vals(state), st_bals(state), st_slot(state) / spec.SLOTS_PER_EPOCH, spec.MAX_EFFECTIVE_BALANCE, st_next_wvi(state), reg_len(st_vals(state)), p) && pl_wds(executionPayload)[sw_count(old(n_set_bal), st_vals(state), st_bals(state), st_slot(state) / spec.SLOTS_PER_EPOCH, spec.MAX_EFFECTIVE_BALANCE, st_next_wvi(state), reg_len(st_vals(state)), p)].ValidatorIndex == sw_idx(st_next_wvi(state), reg_len(st_vals(state)), p))
+//@   ensures c03_members_amount: err == nil && old(spec != nil && state != nil && executionPayload != nil && spec.SLOTS_PER_EPOCH != 0 && spec.MAX_WITHDRAWALS_PER_PAYLOAD > 0 && spec.MAX_WITHDRAWALS_PER_PAYLOAD < 4611686018427387904 && st_next_wi(state) < 4611686018427387904 && st_next_wvi(state) < 4611686018427387904 && spec.MAX_VALIDATORS_PER_WITHDRAWALS_SWEEP < 4611686018427387904) ==> (forall p :: {sw_count(old(n_set_bal), st_vals(state), st_bals(state), st_slot(state) / spec.SLOTS_PER_EPOCH, spec.MAX_EFFECTIVE_BALANCE, st_next_wvi(state), reg_len(st_vals(state)), p)} 0 <= p && p < min(reg_len(st_vals(state)), spec.MAX_VALIDATORS_PER_WITHDRAWALS_SWEEP) && sw_wd(old(n_set_bal), st_vals(state), st_bals(state), st_slot(state) / spec.SLOTS_PER_EPOCH, spec.MAX_EFFECTIVE_BALANCE, st_next_wvi(state), reg_len(st_vals(state)), p) && sw_count(old(n_set_bal), st_vals(state), st_bals(state), st_slot(state) / spec.SLOTS_PER_EPOCH, spec.MAX_EFFECTIVE_BALANCE, st_next_wvi(state), reg_len(st_vals(state)), p) < spec.MAX_WITHDRAWALS_PER_PAYLOAD ==> pl_wds(executionPayload)[sw_count(old(n_set_bal), st_vals(state), st_bals(state), st_slot(state) / spec.SLOTS_PER_EPOCH, spec.MAX_EFFECTIVE_BALANCE, st_next_wvi(state), reg_len(st_vals(state)), p)].Amount == sw_amount(old(n_set_bal), st_vals(state), st_bals(state), st_slot(state) / spec.SLOTS_PER_EPOCH, spec.MAX_EFFECTIVE_BALANCE, st_next_wvi(state), reg_len(st_vals(state)), p))
+//@   ensures c03_members_address: err == nil && old(spec != nil && state != nil && executionPayload != nil && spec.SLOTS_PER_EPOCH != 0 && spec.MAX_WITHDRAWALS_PER_PAYLOAD > 0 && spec.MAX_WITHDRAWALS_PER_PAYLOAD < 4611686018427387904 && st_next_wi(state) < 4611686018427387904 && st_next_wvi(state) < 4611686018427387904 && spec.MAX_VALIDATORS_PER_WITHDRAWALS_SWEEP < 4611686018427387904) ==> (forall p :: {sw_count(old(n_set_bal), st_vals(state), st_bals(state), st_slot(state) / spec.SLOTS_PER_EPOCH, spec.MAX_EFFECTIVE_BALANCE, st_next_wvi(state), reg_len(st_vals(state)), p)} 0 <= p && p < min(reg_len(st_vals(state)), spec.MAX_VALIDATORS_PER_WITHDRAWALS_SWEEP) && sw_wd(old(n_set_bal), st_vals(state), st_bals(state), st_slot(state) / spec.SLOTS_PER_EPOCH, spec.MAX_EFFECTIVE_BALANCE, st_next_wvi(state), reg_len(st_vals(state)), p) && sw_count(old(n_set_bal), st_vals(state), st_bals(state), st_slot(state) / spec.SLOTS_PER_EPOCH, spec.MAX_EFFECTIVE_BALANCE, st_next_wvi(state), reg_len(st_vals(state)), p) < spec.MAX_WITHDRAWALS_PER_PAYLOAD ==> (forall k :: 0 <= k && k < 20 ==> pl_wds(executionPayload)[sw_count(old(n_set_bal), st_vals(state), st_bals(state), st_slot(state) / spec.SLOTS_PER_EPOCH, spec.MAX_EFFECTIVE_BALANCE, st_next_wvi(state), reg_len(st_vals(state)), p)].Address[k] == v_wcred(reg_val(st_vals(state), sw_idx(st_next_wvi(state), reg_len(st_vals(state)), p)))[12 + k]))
+//@   ensures c01_balances: err == nil && old(spec != nil && state != nil && executionPayload != nil && spec.SLOTS_PER_EPOCH != 0 && spec.MAX_WITHDRAWALS_PER_PAYLOAD > 0 && spec.MAX_WITHDRAWALS_PER_PAYLOAD < 4611686018427387904 && st_next_wi(state) < 4611686018427387904 && st_next_wvi(state) < 4611686018427387904 && spec.MAX_VALIDATORS_PER_WITHDRAWALS_SWEEP < 4611686018427387904) ==> n_set_bal == old(n_set_bal) + len(pl_wds(executionPayload))
+//@   ensures c01_next_index: err == nil && old(spec != nil && state != nil && executionPayload != nil && spec.SLOTS_PER_EPOCH != 0 && spec.MAX_WITHDRAWALS_PER_PAYLOAD > 0 && spec.MAX_WITHDRAWALS_PER_PAYLOAD < 4611686018427387904 && st_next_wi(state) < 4611686018427387904 && st_next_wvi(state) < 4611686018427387904 && spec.MAX_VALIDATORS_PER_WITHDRAWALS_SWEEP < 4611686018427387904) ==> n_set_nwi == old(n_set_nwi) + ite(len(pl_wds(executionPayload)) > 0, 1, 0) && (len(pl_wds(executionPayload)) > 0 ==> set_nwi == st_next_wi(state) + len(pl_wds(executionPayload)))
+//@   ensures c01_next_validator_once: err == nil && old(spec != nil && state != nil && executionPayload != nil && spec.SLOTS_PER_EPOCH != 0 && spec.MAX_WITHDRAWALS_PER_PAYLOAD > 0 && spec.MAX_WITHDRAWALS_PER_PAYLOAD < 4611686018427387904 && st_next_wi(state) < 4611686018427387904 && st_next_wvi(state) < 4611686018427387904 && spec.MAX_VALIDATORS_PER_WITHDRAWALS_SWEEP < 4611686018427387904) ==> !reg_len_err(st_vals(state)) && n_set_nwvi == old(n_set_nwvi) + 1
+//@   ensures c01_next_validator_full: err == nil && old(spec != nil && state != nil && executionPayload != nil && spec.SLOTS_PER_EPOCH != 0 && spec.MAX_WITHDRAWALS_PER_PAYLOAD > 0 && spec.MAX_WITHDRAWALS_PER_PAYLOAD < 4611686018427387904 && st_next_wi(state) < 4611686018427387904 && st_next_wvi(state) < 4611686018427387904 && spec.MAX_VALIDATORS_PER_WITHDRAWALS_SWEEP < 4611686018427387904) && len(pl_wds(executionPayload)) == spec.MAX_WITHDRAWALS_PER_PAYLOAD ==> set_nwvi == (pl_wds(executionPayload)[len(pl_wds(executionPayload)) - 1].ValidatorIndex + 1) % reg_len(st_vals(state))
+//@   ensures c01_next_validator_sweep: err == nil && old(spec != nil && state != nil && executionPayload != nil && spec.SLOTS_PER_EPOCH != 0 && spec.MAX_WITHDRAWALS_PER_PAYLOAD > 0 && spec.MAX_WITHDRAWALS_PER_PAYLOAD < 4611686018427387904 && st_next_wi(state) < 4611686018427387904 && st_next_wvi(state) < 4611686018427387904 && spec.MAX_VALIDATORS_PER_WITHDRAWALS_SWEEP < 4611686018427387904) && len(pl_wds(executionPayload)) != spec.MAX_WITHDRAWALS_PER_PAYLOAD ==> set_nwvi == (st_next_wvi(state) + spec.MAX_VALIDATORS_PER_WITHDRAWALS_SWEEP) % reg_len(st_vals(state))
+//@   loop 1
+//@     invariant 0 <= w && w <= len(expectedWithdrawals) && len(expectedWithdrawals) == len(withdrawals) && eqseq(withdrawals, pl_wds(executionPayload)) && bals == st_bals(state) && n_set_bal == old(n_set_bal) + w && n_set_nwi == old(n_set_nwi) && n_set_nwvi == old(n_set_nwvi)
+//@     invariant forall k :: {pl_wds(executionPayload)[k]} {expectedWithdrawals[k]} 0 <= k && k < w ==> pl_wds(executionPayload)[k].Index == expectedWithdrawals[k].Index && pl_wds(executionPayload)[k].ValidatorIndex == expectedWithdrawals[k].ValidatorIndex && pl_wds(executionPayload)[k].Amount == expectedWithdrawals[k].Amount && (forall b :: 0 <= b && b < 20 ==> pl_wds(executionPayload)[k].Address[b] == expectedWithdrawals[k].Address[b])
 
 //@ func ProcessHistoricalSummariesUpdate(ctx, spec, epc, state) err
 //@   property C18
